@@ -1,3 +1,4 @@
+pub mod btree;
 pub mod crash;
 pub mod seq;
 pub mod wal;
